@@ -1,7 +1,13 @@
 (** C16 -- refutations: every listed defect is a genuine counterexample of the faithful model (so the list in
-    C16.v excludes nothing that actually holds), with one explicit witness per root cause.
-    Compiled separately from C16.v: when sqlframe repairs a defect this file stops compiling, which the check
-    reports as "no longer refuted" without raising an alarm. *)
+    Known.v excludes nothing that actually holds).
+    Compiled separately from C16.v: when sqlframe repairs a defect its refutation stops compiling, which the check
+    reports as "no longer refuted" without raising an alarm.
+
+    History: on the original tree 27 keys were listed and refuted here, with explicit witnesses for the five root
+    causes (log1p_from_log: 'c' + Column is Column.__radd__ -> string literal; the slice alternatives and array_repeat:
+    x if isinstance(x, Column) else lit(x); overlay: lit(pos)/lit(len); date_sub_by_date_add: days * Column).  All five
+    were repaired in /repo, the list is empty, and the former witnesses are now the positive example [C16_repaired]
+    in C16.v. *)
 From SF Require Import C16.Fexp C16.Known.
 From Gen Require Import C16Table C16Entries.
 From Coq Require Import String List ZArith. Import ListNotations. Open Scope string_scope.
@@ -9,34 +15,4 @@ From Coq Require Import String List ZArith. Import ListNotations. Open Scope str
 Lemma C16_known_all_refuted :
   forallb (fun k => refuted gen_prims gen_table "c" k gen_entries) C16_known = true.
 Proof. vm_compute. reflexivity. Qed.
-
-(** log1p_from_log(col) computes  log(col + lit(1)):  'c' + Column  is Column.__radd__('c'), a string LITERAL *)
-Theorem C16_refuted_1 : exists e, In e gen_entries /\ key_eqb ("log1p", "duckdb", 0%nat) e = true /\
-  decided gen_prims gen_table "c" e = true /\ holds gen_prims gen_table "c" e = false.
-Proof. apply refuted_sound. vm_compute. reflexivity. Qed.
-Print Assumptions C16_refuted_1.
-
-(** slice_as_list_slice: start/length go through  x if isinstance(x, Column) else lit(x) *)
-Theorem C16_refuted_2 : exists e, In e gen_entries /\ key_eqb ("slice", "duckdb", 1%nat) e = true /\
-  decided gen_prims gen_table "c" e = true /\ holds gen_prims gen_table "c" e = false.
-Proof. apply refuted_sound. vm_compute. reflexivity. Qed.
-
-(** array_repeat (default implementation): count goes through  lit(count)  unless it is a Column *)
-Theorem C16_refuted_3 : exists e, In e gen_entries /\ key_eqb ("array_repeat", "standalone", 1%nat) e = true /\
-  decided gen_prims gen_table "c" e = true /\ holds gen_prims gen_table "c" e = false.
-Proof. apply refuted_sound. vm_compute. reflexivity. Qed.
-
-(** overlay (default implementation): lit(pos) / lit(len) *)
-Theorem C16_refuted_4 : exists e, In e gen_entries /\ key_eqb ("overlay", "spark", 2%nat) e = true /\
-  decided gen_prims gen_table "c" e = true /\ holds gen_prims gen_table "c" e = false.
-Proof. apply refuted_sound. vm_compute. reflexivity. Qed.
-
-(** date_sub_by_date_add (Snowflake):  days * lit_func(-1)  with days a raw str *)
-Theorem C16_refuted_5 : exists e, In e gen_entries /\ key_eqb ("date_sub", "snowflake", 1%nat) e = true /\
-  decided gen_prims gen_table "c" e = true /\ holds gen_prims gen_table "c" e = false.
-Proof. apply refuted_sound. vm_compute. reflexivity. Qed.
-
-(** the concrete model results behind witness 1 *)
-Eval vm_compute in
-  (let e := mkEntry "log1p" "duckdb" 0 [STest] in
-   (res_str gen_prims gen_table "c" e, res_col gen_prims gen_table "c" e)).
+Print Assumptions C16_known_all_refuted.
